@@ -196,7 +196,7 @@ fn gen_neg_expr(t: &mut Tape, names: &[String]) -> Expr {
 
 pub fn gen_neg(t: &mut Tape, tree: &TreeSpec) -> Neg {
     let names = tree_names(tree);
-    let mut one = |t: &mut Tape| -> Expr {
+    let one = |t: &mut Tape| -> Expr {
         if t.chance(50) {
             gen_expr(t, &fs_glob_cfg(tree))
         }
